@@ -186,6 +186,9 @@ def crypto_ops(seed, count, prefix="K"):
     contents = [good, good + b"\n", good + b"\r\n", b"\n" + good, good[:40] + b"\n" + good[40:], good + b" ", b" " + good, good[:-1], good[:-2] + b"==", good + b"=", b"", b"\n",
                 b64.b64encode(rbytes(63)), b64.b64encode(rbytes(65)), b64.b64encode(rbytes(32)), b64.b64encode(rbytes(66)), b64.b64encode(b""), keys[3], good.replace(b"/", b"_").replace(b"+", b"-"),
                 b64.b64encode(rbytes(64)).rstrip(b"="), good.decode().encode("utf-16"), b"\xef\xbb\xbf" + good, good + b"\x00", good * 2]
+    # keys with zero bytes at the end / everywhere (a reader that trims NULs or measures the decoded buffer loosely)
+    for kz in (bytes(64), keys[3][:63] + b"\x00", keys[3][:60] + bytes(4), b"\x00" + keys[3][1:], keys[3][:63] + b"\xff"):
+        contents.append(b64.b64encode(kz))
     for i, c in enumerate(contents):
         ops.append(("%srk%d" % (prefix, i), ["readkey", c.hex()]))
     for i, k in enumerate(keys + [rbytes(63), rbytes(65), b""]):
@@ -197,7 +200,8 @@ def crypto_ops(seed, count, prefix="K"):
         if f[2] in seen:
             continue
         seen.add(f[2])
-        for j, c in enumerate([Cfg(enc=3), Cfg(enc=3, n=True, b=True, w=True, repl="R")]):
+        # (one process: the key in force alternates - a cached encryptor that ignores SetEncryptionKey shows here)
+        for j, c in enumerate([Cfg(enc=3), Cfg(enc=4), Cfg(enc=3, n=True, b=True, w=True, repl="R"), Cfg(enc=4, w=True), Cfg(enc=3)]):
             ops.append(("%s.y%d" % (oid, j), ["line", c.s(), f[2]]))
     return ops
 
